@@ -14,6 +14,10 @@ API = [("api-counter", {"quick": ["-n", "60"], "thorough": ["-n", "3000"], "sear
        ("api-map", {"quick": ["-n", "100"], "thorough": ["-n", "4000"], "search": ["-n", "1500"]}),
        ("api-list", {"quick": ["-n", "100"], "thorough": ["-n", "4000"], "search": ["-n", "1500"]})]
 PROPS = {
+    "C14": {"slices": [("codec", {"quick": ["-n", "1500"], "thorough": ["-n", "60000"], "search": ["-n", "8000"]})],
+            "trusted": ["encoding/json, google.golang.org/protobuf and mongo-driver/bson byte formats: exercised (every case goes through all three), not modelled",
+                        "float64: the model's numbers are exact integers; faithful for |z| <= 2^53, non-integral floats are not generated"],
+            "assumptions": ["lamport clocks below 2^63 (BSON has no uint64)", "snapshot operations: their body is covered by C10, not by the codec model"]},
     "C10": {"slices": CRDT, "trusted": ["Go encoding/json (Marshal/Unmarshal of the snapshot structs) is exercised, not modelled byte by byte: the marshalled JSON is parsed and compared field by field with the model's marshalled form"], "assumptions": ["Document snapshots are not modelled yet"]},
     "C03": {"slices": API, "trusted": [], "assumptions": ["Document is not modelled yet"]},
     "C04": {"slices": [CRDT[2], API[2]], "trusted": [], "assumptions": ["order agreement ACROSS replicas rests on list convergence (C01, list instance not yet proved)"]},
